@@ -62,7 +62,7 @@ def WFO(node, parent, ref, seg, i=0):
 
 
 ATTR = "yaml_path._escaped[segment_index][1]"
-KW = {"kw_translated_path": "YAMLPath", "kw_ancestry": "List[Any]"}
+KW = {"kw_translated_path": "YAMLPath", "kw_ancestry": "List[Tuple[Any, Any]]"}
 KWP = dict(KW, kw_parent="Any", kw_parentref="Any")
 NC = "Union[NodeCoords, list]"
 
@@ -277,6 +277,7 @@ class NodeIsAoh:
     raises = []
     loops = {"for ele in node": {"body_ensures": [
         "implies(not exited, isinstance(ele, dict) or (accept_nulls and ele is None))"]}}
+    ensures = ["implies(result, isinstance(node, (list, set)))"]     # (an empty set, or a set holding only null, also passes)
     opts = {"returns": "bool", "pure": True,
             "elem_fact": {"param": "node", "fact": "implies(result, isinstance(elem, dict) or (kw_accept_nulls and elem is None))"}}
 
@@ -301,15 +302,36 @@ class ByCollector:
 
 
 KS = "yamlpath.common.keywordsearches.KeywordSearches."
+KW_TERMS = {"terms._inverted": "bool", "terms._keyword": "PathSearchKeywords", "terms._parameters": "str",
+            "terms._parameters_parsed": "bool", "terms._lparameters": "List[str]"}
+# keyword implementations still ASSUMED at the dispatcher.  has_child (+ its two helpers), name and parent are verified.
+# max / min / unique / distinct are not: their subscripts are safe only because unwrap_node_coords(data)[i] is
+# unwrap_node_coords(data[i]) -- an element-wise fact about a recursive function that this encoding does not carry
+# (their other obligations discharge; the bounded harnesses rtc/c13 and rtc/c15 exercise them)
+KW_ASSUMED = ("max", "min", "unique", "distinct")
+KW_LOOPS = {
+    "parent": {
+        # climbing: one ancestry entry and one path segment per step; the copies shrink in step with the counter
+        "for _ in range(parent_levels)": {
+            "ghost": {"n0": "len(ancestry)"},
+            "invariant": ["len(ancestry) == n0 - iters", "ancestry_len == n0 - iters", "parent_levels <= n0", "iters <= parent_levels"],
+        },
+    },
+}
 for _name in ("distinct", "has_child", "name", "max", "min", "parent", "unique"):
     def _mk(n):
-        @contract(KS + n, props=["C15"])
+        @contract(KS + n, props=["C15", "C13"])
         class _K:
-            __doc__ = "ASSUMED at the keyword dispatcher: %s() raises only YAMLPathException (bounded: rtc/c13, rtc/c15)." % n
-            assumed = True
-            notes = "keyword implementation %s: bounded-only in this round" % n
+            __doc__ = ("Keyword %s(): for ANY data, any parsed path and any parameter text, only the YAMLPathException family escapes "
+                       "(K1 at every subscript / ordering / hashing / attribute site)." % n)
+            assumed = n in KW_ASSUMED
+            notes = "keyword implementation %s: bounded-only" % n if n in KW_ASSUMED else ""
+            params = dict(KWP, terms="SearchKeywordTerms", yaml_path="YAMLPath", kw_traverse_lists="bool", kw_relay_segment="Any",
+                          invert="bool", parameters="List[str]")
+            assume_fields = dict(PATH_FIELDS, **KW_TERMS)
             raises = ["YAMLPathException"]
-            opts = {"yields": "Union[NodeCoords, list]"}
+            loops = KW_LOOPS.get(n, {})
+            opts = dict(SEG_INV, yields="Union[NodeCoords, list]")
         _K.__name__ = "Keyword_" + n
         return _K
     _mk(_name)
@@ -367,3 +389,37 @@ class OptionalNodes:
         },
     }
     opts = dict(SEG_INV, yields="NodeCoords", decreases="len(yaml_path) - depth")
+
+
+for _name in ("_has_concrete_child", "_has_anchored_child"):
+    def _mk2(n):
+        @contract(KS + n, props=["C15", "C13"])
+        class _H:
+            __doc__ = "has_child() helper %s: only the YAMLPathException family escapes." % n
+            params = dict(KWP, yaml_path="YAMLPath", kw_traverse_lists="bool", kw_relay_segment="Any", invert="bool", parameters="List[str]")
+            assume_fields = PATH_FIELDS
+            requires = ["len(parameters) >= 1"] + (["len(parameters[0]) >= 1"] if n == "_has_anchored_child" else [])
+            raises = ["YAMLPathException"]
+            loops = {
+                # Array-of-Hashes pass-through: each element is examined with ITS OWN index, path and ancestry (new objects)
+                "for idx, ele in enumerate(data)": {"body_ensures": [
+                    "called('has_child') <= 1",
+                    "implies(called('has_child') == 1, call_event('has_child')[1] is ele and call_event('has_child')[2] is data "
+                    "and same(call_event('has_child')[3], idx))",
+                    "implies(called('has_child') == 1, path_is(call_event('has_child')[4], translated_path, '[{}]'.format(str(idx))))",
+                    "implies(called('has_child') == 1, extended_by(call_event('has_child')[5], ancestry, (data, idx)))",
+                ]},
+            } if n == "_has_anchored_child" else {}
+            opts = dict(SEG_INV, yields="Union[NodeCoords, list]", decreases="size of the (finite, acyclic) subtree under `data`",
+                        event="('has_child', data, kw_parent, kw_parentref, kw_translated_path, kw_ancestry)")
+        _H.__name__ = "Keyword" + n
+        return _H
+    _mk2(_name)
+
+
+@contract("yamlpath.wrappers.nodecoords.NodeCoords.unwrap_node_coords", props=["C15", "C13"])
+class UnwrapNodeCoords:
+    """Strips the wrappers off a (possibly nested) result: total; it raises nothing."""
+    raises = []
+    opts = {"returns": "Any", "decreases": "nesting depth of the wrapped value (finite: wrappers are built bottom-up)",
+            "heap_fields": {"NodeCoords.node": "Any"}}
